@@ -913,7 +913,7 @@ def run(tier, seed, replay=None):
             discrimination(world, out)
             specs = systematic(rng, world.tx, capdrop_ok, quick=(tier == "quick"))
             out.extra["systematic_cases"] = len(specs)
-            total = 200 if tier == "quick" else 3000
+            total = 200 if tier == "quick" else 1300
             while len(specs) < total:
                 specs.append(rand_spec(rng, world.tx, len(specs), capdrop_ok))
         all_texts = []
